@@ -224,6 +224,20 @@ CLAIMED["C07"] = (
     "DESIGN.md section 6 C07",
 )
 
+CLAIMED["C37"] = (
+    "invert_diagonal_blocks (numba source run as Python, and the python path; CSR and CSC), block_diag_matrix / "
+    "block_diag_index, generate_permutation_to_block_diag_matrix and invert_permuted_block_diag_matrix are "
+    "executed on block-diagonal and row/column-permuted block-diagonal matrices with symbolic block entries, for "
+    "every block-size vector within the bound. z3 decides A * inv = I and inv * A = I entry-wise for all "
+    "non-singular block values (the per-block inverse is the exact cofactor inverse, i.e. the contract of "
+    "np.linalg.inv), that the inverse stays within the block pattern, and the computed permutation exposes "
+    "square blocks of the constructed sizes.",
+    "Floats as exact reals; blocks of size 1-3 (the property's 4-6 are outside), <= 3 blocks; permutations "
+    "sampled; numerical conditioning outside.",
+    "symbolic execution of the block inverters on z3 terms + SMT",
+    "DESIGN.md section 6 C37",
+)
+
 NOT_APPLICABLE = {
     "C11": "MPFA local systems are inverted in LAPACK/numba kernels on data-dependent block structures; a symbolic inverse of the interaction-region blocks is beyond z3/cvc5 and with concrete matrices nothing quantified remains for a solver.",
     "C13": "MPSA: same obstacle as C11 with 2-3x larger local systems.",
